@@ -7,6 +7,13 @@ natural numbers.  What the code does, and which label stands for it:
 
   `send i`   the sender's API call for message `i` begins (`cs.NotifyProgress`, `cs.CallTool`,
              `ss.Log`, `client.AddRoots`, … ; inside it `jsonrpc2.Connection.Notify` / `Call`).
+  `bsend ps i` message `i` is sent as part of ONE transport unit (an HTTP POST body carrying a
+             JSON-RPC batch, as a foreign peer may send on protocol versions before 2025-06-18) in
+             which the messages `ps` stand before it.  The transport hands the messages of one body
+             to the session in body order (`servePOST`: `for _, msg := range incoming { c.incoming <- msg }`,
+             one goroutine), so `write i` is enabled only after every `p ∈ ps` has been written;
+             the acknowledgement of the body (202) is `ret` of each of its messages, hence enabled
+             only when ALL of them are queued.  `send i` is `bsend [] i`.
   `write i`  the transport's `Write` has put the message into the receiver's FIFO: the pipe for the
              in-memory / stdio transports, the `incoming` channel of `SSEServerTransport` /
              `streamableServerConn` for HTTP POSTs (written *before* the 202, a regenerated fact),
@@ -59,6 +66,7 @@ deriving DecidableEq, Repr
 
 inductive Label where
   | send (i : Nat)
+  | bsend (ps : List Nat) (i : Nat)
   | write (i : Nat)
   | ret (i : Nat)
   | disp (i : Nat)
@@ -76,11 +84,13 @@ structure State where
   busy : Option Nat
   /-- messages whose sender-side API call has returned -/
   returned : List Nat
-  /-- ghost: (i, j) with `i` synchronous and `ret i` before `send j` -/
+  /-- ghost: (i, j) with `i` synchronous and `ret i` before `send j`, or `i` before `j` in one body -/
   pred : List (Nat × Nat)
+  /-- (p, i): `p` stands before `i` in the same transport unit (POST body); the transport writes them in that order -/
+  after : List (Nat × Nat)
 
 def init : State :=
-  { phase := fun _ => .unsent, queue := [], busy := none, returned := [], pred := [] }
+  { phase := fun _ => .unsent, queue := [], busy := none, returned := [], pred := [], after := [] }
 
 def State.setPhase (s : State) (i : Nat) (p : Phase) : State :=
   { s with phase := fun k => if k = i then p else s.phase k }
@@ -92,8 +102,15 @@ def step (kind : Nat → Kind) (s : State) : Label → Option State
       some { (s.setPhase i .sending) with
         pred := s.pred ++ (s.returned.filter fun k => (kind k).sync).map fun k => (k, i) }
     else none
+  | .bsend ps i =>
+    if s.phase i = .unsent ∧ ∀ p ∈ ps, s.phase p ≠ .unsent then
+      some { (s.setPhase i .sending) with
+        pred := s.pred ++ ((s.returned.filter fun k => (kind k).sync).map fun k => (k, i))
+                  ++ ((ps.filter fun k => (kind k).sync).map fun k => (k, i)),
+        after := s.after ++ ps.map fun p => (p, i) }
+    else none
   | .write i =>
-    if s.phase i = .sending then
+    if s.phase i = .sending ∧ ∀ p ∈ s.after, p.2 = i → (s.phase p.1 ≠ .unsent ∧ s.phase p.1 ≠ .sending) then
       some { (s.setPhase i .queued) with queue := s.queue ++ [i] }
     else none
   | .ret i =>
@@ -162,6 +179,7 @@ def runE : State → List Label → Option State
 /-- Observable events: API call begins / returns, user handler starts / ends. -/
 inductive Ev where
   | snd (i : Nat)
+  | bsnd (ps : List Nat) (i : Nat)   -- `i` is sent in one body with `ps` before it
   | ret (i : Nat)
   | beg (i : Nat)
   | fin (i : Nat)
@@ -169,6 +187,7 @@ deriving DecidableEq, Repr
 
 def Label.vis : Label → Option Ev
   | .send i => some (.snd i)
+  | .bsend ps i => some (.bsnd ps i)
   | .ret i => some (.ret i)
   | .start i => some (.beg i)
   | .fin i => some (.fin i)
@@ -182,13 +201,16 @@ every message the synchronous messages that had returned before it was sent. -/
 structure Mon where
   returned : List Nat := []
   finished : List Nat := []
-  sentAfter : List (Nat × Nat) := []   -- (i, j): `ret i` before `snd j`, `i` synchronous
+  sentAfter : List (Nat × Nat) := []   -- (i, j), `i` synchronous: `ret i` before `snd j`, or `i` before `j` in one body
   bad : Option (Nat × Nat) := none     -- first (i, j) with `j`'s handler started before `i`'s ended
 
 /-- C03 on a trace: when the handler of `j` starts, the handler of every notification (or
-`initialize`) whose sending call had returned before `j` was sent has finished. -/
+`initialize`) whose sending call had returned before `j` was sent — or which stands before `j` in the
+body that carried both — has finished. -/
 def Mon.step (kind : Nat → Kind) (m : Mon) : Ev → Mon
   | .snd j => { m with sentAfter := m.sentAfter ++ (m.returned.filter fun k => (kind k).sync).map fun k => (k, j) }
+  | .bsnd ps j => { m with sentAfter := m.sentAfter ++ ((m.returned.filter fun k => (kind k).sync).map fun k => (k, j))
+                                            ++ ((ps.filter fun k => (kind k).sync).map fun k => (k, j)) }
   | .ret i => { m with returned := i :: m.returned }
   | .beg j =>
     match m.bad with
